@@ -547,6 +547,28 @@ def gen_registration():
 # ---------------------------------------------------------------------------
 # folds next to Groups: only a fold that IS a Group leaf aggregates across the Group's items; after a Group step, or inside Auto below a Group, it is a plain fold
 
+def _temporary_inits():
+    """merge() / Merge() with throw-away init callables (inline lambdas) of alternating result types: each call uses ITS init"""
+    import collections
+    rows = [{'b': 1}, {'a': 2}, {'b': 3}]
+
+    class FirstWins(dict):
+        def update(self, other):
+            for k, v in other.items():
+                self.setdefault(k, v)
+    bad = []
+    for i in range(400):
+        r1 = merge(rows, init=lambda: {})
+        r2 = merge(rows, init=lambda: collections.OrderedDict())
+        r3 = glom(rows, Merge(init=lambda: FirstWins()))
+        r4 = glom(rows, Merge(init=lambda: dict()))
+        got = (type(r1).__name__, dict(r1), type(r2).__name__, dict(r2), type(r3).__name__, dict(r3), dict(r4))
+        want = ('dict', {'b': 3, 'a': 2}, 'OrderedDict', {'b': 3, 'a': 2}, 'FirstWins', {'b': 1, 'a': 2}, {'b': 3, 'a': 2})
+        if got != want:
+            bad.append((i, got))
+    return bad[:2]
+
+
 def around_groups_menu():
     from glom import Auto, Pipe
     from glom.grouping import Group
@@ -563,6 +585,7 @@ def around_groups_menu():
         ('auto-flatten-per-item-under-key', lambda: glom([[[1], [2]], [[3]]], Group({len: [Auto(Flatten())]})), {2: [[1, 2]], 1: [[3]]}),
         ('group-leaf-sum-still-aggregates', lambda: glom([1, 2, 3], Group(Sum())), 6),
         ('group-then-group', lambda: glom([1, 2, 3], (Group([T]), Group(Sum()))), 6),
+        ('temporary-init-callables-400-rounds', _temporary_inits, []),
     ]
 
 
@@ -586,7 +609,7 @@ def subs(tier, only=None):
                  'input snapshots, init() call count and identity disjointness of inputs and results',
             min_nontrivial=10000, min_outcomes=2, required_tags=['fold', 'sum', 'flatten', 'merge', 'list', 'tuple', 'gen', 'dictkeys', 'scalar'] + list(MENUS)),
         Sub('folds-around-groups', list(range(len(around_groups_menu()))), run_around_groups,
-            rule='fixed menu: Sum / Flatten / Merge as a chain step after a Group, inside Auto below a Group, as Group leaf', min_nontrivial=10, min_outcomes=10),
+            rule='fixed menu: Sum / Flatten / Merge as a chain step after a Group, inside Auto below a Group, as Group leaf', min_nontrivial=11, min_outcomes=11),
         Sub('registration-histories', gen_registration(), run_registration,
             rule='case = (Sum | Flatten | Fold | Merge, history of <= 4 events over {fold, register another iterate handler, register iterate=False, register iter} '
                  'ending in a fold) on one Glommer and ONE spec object: every fold uses the registration in force', min_nontrivial=300, min_outcomes=1),
